@@ -31,6 +31,7 @@ structure RS where
   script : List Attempt := []   -- reversed
   payload : List Nat := []
   sent : Bool := false
+  q : Bool := false            -- built with sending_queue{wait_for_result}: the caller is answered when its context ends
   nd : Bool := false           -- the harness sent this request to the monitor (`mode=nd`) instead of the exact diff
   implCalls : List (Nat × List Nat) := []  -- reversed
   implCtx : List (String × String) := []   -- reversed: (dl=…, ek=…) per call
@@ -89,12 +90,17 @@ def finalizeReq (s : RS) : List String :=
     | none, some c, some e, some (t, reason, p, sd) =>
       let script := s.script.reverse
       let calls := s.implCalls.reverse
-      let o : Observed := { calls := calls, tEnd := t, isNil := reason == "ok", permFlag := p, sdFlag := sd }
+      -- queue mode, caller answered by its context: the sender's own verdict is not observed; judge the attempts only
+      -- (the clauses that read the verdict get the one the last attempt's outcome implies)
+      let early := s.q && reason == "ctxdone"
+      let lastOk := (script.getD (calls.length - 1) { ok := true }).ok
+      let o : Observed := if early then { calls := calls, tEnd := t, isNil := lastOk, permFlag := false, sdFlag := false }
+        else { calls := calls, tEnd := t, isNil := reason == "ok", permFlag := p, sdFlag := sd }
       let p1 := match checkObserved c e s.payload script o with
         | [] => "prop retry=ok"
         | sig :: more => s!"prop retry=FAIL sig={sig} also={more} calls={o.calls.map (·.1)} ret={t}/{reason}"
       -- monitor: the observation is the observation of a trace some scheduling order produces
-      let p2 := match reasonOfString reason with
+      let p2 := if early then "prop allowed=ok" else match reasonOfString reason with
         | some r =>
           if accepts c e r t p sd 0 0 s.payload script calls then "prop allowed=ok"
           else s!"prop allowed=FAIL sig=C05/retry/not-an-allowed-behaviour calls={o.calls.map (·.1)} ret={t}/{reason}"
@@ -137,10 +143,18 @@ def retryHandler : Handler RS where
         let nd := kv more "mode" == some "nd"
         let script := s.script.reverse
         let tr := send c e pl script
-        let lines := (tr.calls.zipIdx.map (fun (cl, k) => callLine c e script "obs" cl.t cl.payload k)) ++
-          [s!"obs ret {tr.tEnd} {tr.reason.toString} perm={b01 tr.permFlag} sd={b01 tr.sdFlag}"]
+        let q := kv more "q" == some "1"
+        -- with the wait_for_result queue the producer is answered with its context's error as soon as that context ends,
+        -- the sender's attempts are what they are; a sender verdict "cancelled" on that instant is the same answer
+        let retLine := match q, e.ctxDone with
+          | true, some x =>
+            if x < tr.tEnd then s!"obs ret {x} ctxdone perm=0 sd=0"
+            else if tr.reason == .cancelled then s!"obs ret {tr.tEnd} ctxdone perm=0 sd=0"
+            else s!"obs ret {tr.tEnd} {tr.reason.toString} perm={b01 tr.permFlag} sd={b01 tr.sdFlag}"
+          | _, _ => s!"obs ret {tr.tEnd} {tr.reason.toString} perm={b01 tr.permFlag} sd={b01 tr.sdFlag}"
+        let lines := (tr.calls.zipIdx.map (fun (cl, k) => callLine c e script "obs" cl.t cl.payload k)) ++ [retLine]
         -- equal-instant cases are only monitored (`tr` lines of the harness): no model observation to diff
-        ({ s with payload := pl, sent := true, nd := nd }, if nd then [] else lines)
+        ({ s with payload := pl, sent := true, nd := nd, q := q }, if nd then [] else lines)
       | _, _, _ => (s, ["obs bad-op"])
     | _ => (s, ["obs bad-op"])
   onObs := fun s toks =>
